@@ -445,6 +445,69 @@ def run(ctx):
                          key=f"R7.5:{hf.name}:hash-membership")
     ctx.ok("R7.5", "helpers:equality-by-==", f"{n_h} helper functions: no membership test against a hash container", None)
 
+    # ------------------------------------------------------------------ R7.7 the typed matcher keeps its query when it descends
+    ctx.rule("R7.7", "a TypeMatcherInstance built for a nested record (first argument is not the matcher's own record) receives every piece of the "
+                     "query the constructor takes - type path and attribute chain - from the matcher that builds it")
+    tmi = prog.cls("flow.record.selector.TypeMatcherInstance")
+    tinit = prog.methods_of(tmi).get("__init__")
+    if tinit is None:
+        raise AnalysisError("R7.7: TypeMatcherInstance.__init__ not found")
+    tparams = func_params(tinit)[1:]
+    # which attribute keeps each constructor parameter
+    kept = {}
+    for st in walk_no_nested(tinit):
+        if isinstance(st, ast.Assign) and len(st.targets) == 1 and isinstance(st.targets[0], ast.Attribute) and norm(st.targets[0].value) == func_params(tinit)[0]:
+            for nm in ast.walk(st.value):
+                if isinstance(nm, ast.Name) and nm.id in tparams and nm.id not in kept:
+                    kept[nm.id] = st.targets[0].attr
+    n_desc = 0
+    for fn in prog.methods_of(tmi).values():
+        if fn is tinit or not func_params(fn):
+            continue
+        me = func_params(fn)[0]
+        for c in calls_in(fn):
+            r = prog.resolve_expr(sel, c.func)
+            if not (isinstance(r, DefRef) and r.node is tmi) or not c.args:
+                continue
+            if norm(c.args[0]) == f"{me}.{kept.get(tparams[0], '_rec')}":
+                continue  # a refinement of the query on the same record (__getattr__), not a descent
+            n_desc += 1
+            given = {tparams[i]: a for i, a in enumerate(c.args) if i < len(tparams)}
+            given.update({k.arg: k.value for k in c.keywords if k.arg})
+            for prm in tparams[1:]:
+                want = f"{me}.{kept.get(prm, prm)}"
+                got = given.get(prm)
+                ctx.check(got is not None and norm(got) == want, "R7.7", f"{fn.name}:descent:{prm}", f"the matcher for a nested record is built with {prm}={norm(got) if got is not None else '<default>'}: "
+                          f"the {prm} part of the query is lost below the top level, so `Type.x.attr <op> v` compares something else for values inside nested records", c,
+                          f"{prm}={want}", key=f"R7.7:TypeMatcherInstance.{fn.name}:descent-drops:{prm}")
+    ctx.floor("R7.7", "descents of the typed matcher into nested records", n_desc, 1)
+
+    # ------------------------------------------------------------------ R7.8 every evaluation starts from a fresh namespace
+    ctx.rule("R7.8", "the interpreted engine binds generator variables in its namespace dict; matches() therefore builds that dict anew before every "
+                     "evaluation (a name left over from the previous record would make the next any()/all() raise instead of giving Python's answer)")
+    rcm = prog.cls("flow.record.selector.RecordContextMatcher")
+    mt8 = ctx.anchor_func("flow.record.selector.RecordContextMatcher.matches")
+    dyn = []
+    for fn in prog.methods_of(rcm).values():
+        for n in ast.walk(fn):
+            if isinstance(n, ast.Subscript) and isinstance(n.ctx, ast.Store) and norm(n.value) == "self.data" and not isinstance(n.slice, ast.Constant):
+                dyn.append(n)
+    ctx.floor("R7.8", "dynamic bindings in the interpreted namespace", len(dyn), 1)
+    mcfg8 = CFG(mt8)
+    evals8 = [c for c in calls_in(mt8) if norm(c.func) in ("self.eval", "self._eval")]
+    ctx.floor("R7.8", "evaluation calls in matches()", len(evals8), 1)
+    fresh = [st for st in walk_no_nested(mt8) if isinstance(st, ast.Assign) and any(norm(t) == "self.data" for t in st.targets)
+             and (isinstance(st.value, ast.Dict) or (isinstance(st.value, ast.Call) and call_name(st.value) == "dict"))]
+    removed = [n for fn in prog.methods_of(rcm).values() for n in ast.walk(fn)
+               if (isinstance(n, ast.Delete) and any(isinstance(t, ast.Subscript) and norm(t.value) == "self.data" for t in n.targets))
+               or (isinstance(n, ast.Call) and norm(n.func) in ("self.data.pop", "self.data.clear"))]
+    for ev in evals8:
+        en = mcfg8.node_of(ev)
+        ok8 = any(mcfg8.dominates(mcfg8.node_of(st).id, en.id) for st in fresh) or bool(removed)
+        ctx.check(ok8, "R7.8", "matches:fresh-namespace", "matches() evaluates in a namespace dict that is not rebuilt for this record, and nothing removes the generator variables "
+                  f"bound by `{norm(dyn[0]._parent)[:50]}`: from the second record on a supported any()/all() expression is refused as overwriting a variable", ev,
+                  "self.data = {...} dominates self.eval(...)", key="R7.8:matches:namespace-reused")
+
     # ------------------------------------------------------------------ R7.6 namespace agreement (informational + wiring)
     ctx.rule("R7.6", "the compiled engine evaluates the expression text unchanged with Python's eval in a namespace holding "
                      "the helper functions, `net`, `r` (wrapped record) and `Type`; differences to the interpreted namespace are listed")
